@@ -148,3 +148,55 @@ pub mod verif_hooks_residuals {
         r.Px.fill(v);
     }
 }
+
+// Add-only access for the external verification harness (/verif, properties C01-C03).
+#[cfg(feature = "verif-hooks")]
+#[allow(missing_docs)]
+pub mod verif_residuals {
+    use super::*;
+
+    /// plain copy of all fields of `DefaultResiduals`
+    #[derive(Clone, Debug)]
+    pub struct Fields<T> {
+        pub rx: Vec<T>,
+        pub rz: Vec<T>,
+        pub rtau: T,
+        pub rx_inf: Vec<T>,
+        pub rz_inf: Vec<T>,
+        pub dot_qx: T,
+        pub dot_bz: T,
+        pub dot_sz: T,
+        pub dot_xPx: T,
+        pub Px: Vec<T>,
+    }
+
+    pub fn get<T: FloatT>(r: &DefaultResiduals<T>) -> Fields<T> {
+        Fields {
+            rx: r.rx.clone(),
+            rz: r.rz.clone(),
+            rtau: r.rτ,
+            rx_inf: r.rx_inf.clone(),
+            rz_inf: r.rz_inf.clone(),
+            dot_qx: r.dot_qx,
+            dot_bz: r.dot_bz,
+            dot_sz: r.dot_sz,
+            dot_xPx: r.dot_xPx,
+            Px: r.Px.clone(),
+        }
+    }
+
+    pub fn from_fields<T: FloatT>(f: Fields<T>) -> DefaultResiduals<T> {
+        DefaultResiduals {
+            rx: f.rx,
+            rz: f.rz,
+            rτ: f.rtau,
+            rx_inf: f.rx_inf,
+            rz_inf: f.rz_inf,
+            dot_qx: f.dot_qx,
+            dot_bz: f.dot_bz,
+            dot_sz: f.dot_sz,
+            dot_xPx: f.dot_xPx,
+            Px: f.Px,
+        }
+    }
+}
